@@ -66,6 +66,7 @@ use tracing::Instrument;
 /// emitted inside inherit the correlation context (pass `tracing::Span::current()`
 /// for nested spawns that already run inside an instrumented task).
 #[inline]
+#[cfg_attr(rustrtc_verif, track_caller)]
 pub(crate) fn spawn_rtc<F>(
     handle: Option<&tokio::runtime::Handle>,
     span: tracing::Span,
